@@ -19,6 +19,7 @@ structure HygId (sfx i : Str) : Prop where
   notlog : (sfx != sLog) = true
   cslash : (cN sfx i).contains '/' = false
   ncslash : (ncN i).contains '/' = false
+  mdSame : mdOf sfx (cN sfx i) = mdOf sfx (ncN i)
 
 structure HygPair (sfx i j : Str) : Prop where
   mdC : mdOf sfx (cN sfx i) = mdOf sfx (cN sfx j) → cN sfx i = cN sfx j
@@ -27,8 +28,8 @@ structure HygPair (sfx i j : Str) : Prop where
 
 theorem hygId_of {sfx i : Str} (h : hygId sfx i = true) : HygId sfx i := by
   simp only [hygId, Bool.and_eq_true, decide_eq_true_eq, Bool.not_eq_true'] at h
-  obtain ⟨⟨⟨⟨⟨⟨⟨⟨⟨⟨h1, h2⟩, h3⟩, h4⟩, h5⟩, h6⟩, h7⟩, h8⟩, h9⟩, h10⟩, h11⟩ := h
-  exact ⟨h1, h2, h3, h4, h5, h6, h7, h8, h9, h10, h11⟩
+  obtain ⟨⟨⟨⟨⟨⟨⟨⟨⟨⟨⟨h1, h2⟩, h3⟩, h4⟩, h5⟩, h6⟩, h7⟩, h8⟩, h9⟩, h10⟩, h11⟩, h12⟩ := h
+  exact ⟨h1, h2, h3, h4, h5, h6, h7, h8, h9, h10, h11, h12⟩
 
 theorem hygPair_of {sfx i j : Str} (h : hygPair sfx i j = true) : HygPair sfx i j := by
   simp only [hygPair, Bool.and_eq_true, Bool.or_eq_true, decide_eq_true_eq, Bool.not_eq_true',
@@ -64,11 +65,14 @@ theorem ncN_ne_nil (i : Str) : ncN i ≠ [] := by
 
 /-! ### the simulation relation -/
 
-structure Sim (H : D → D) (sfx : Str) (ids : List Str) (s : Dir D) (d : Dict D) : Prop where
+/-- `lost` is the ghost list of completed records whose md5 side file is missing (`lostStep`) -/
+structure Sim (H : D → D) (sfx : Str) (ids : List Str) (lost : List Str) (s : Dir D) (d : Dict D) : Prop where
   hmode : s.mode = d.mode
   hsfx : s.sfx = sfx
   root : s.root = d.completed
   nc : s.nc = d.notCompleted
+  logs : s.logs = d.logs
+  logsDir : s.logsDir = true
   ndC : (keys d.completed).Nodup
   ndN : (keys d.notCompleted).Nodup
   fromC : ∀ n ∈ keys d.completed, ∃ i ∈ ids, n = cN sfx i
@@ -76,8 +80,12 @@ structure Sim (H : D → D) (sfx : Str) (ids : List Str) (s : Dir D) (d : Dict D
   cacheC : s.cCache = [] ∨ (s.cCache.Nodup ∧ ∀ n, n ∈ s.cCache ↔ n ∈ keys d.completed)
   cacheN : s.ncCache = [] ∨ (s.ncCache.Nodup ∧ ∀ n, n ∈ s.ncCache ↔ n ∈ keys d.notCompleted)
   md5N : ∀ n v, get d.notCompleted n = some v → get s.md5 (mdOf sfx n) = some (H v)
+  /-- exact: a completed member's md5 is that of its content unless the record is in `lost` -/
   md5C : ∀ n v, get d.completed n = some v →
-    get s.md5 (mdOf sfx n) = some (H v) ∨ get s.md5 (mdOf sfx n) = none
+    get s.md5 (mdOf sfx n) = if n ∈ lost then none else some (H v)
+  /-- no live not-completed record shares its md5 side file with a live completed record -/
+  md5X : ∀ n ∈ keys d.notCompleted, ∀ c ∈ keys d.completed, mdOf sfx c ≠ mdOf sfx n
+  lostSub : ∀ n ∈ lost, n ∈ keys d.completed
   ncDir : s.ncDir = false → d.notCompleted = []
 
 /-- caches are filled and list exactly the dictionary's keys -/
@@ -88,9 +96,9 @@ structure Full (s : Dir D) (d : Dict D) : Prop where
   nmem : ∀ n, n ∈ s.ncCache ↔ n ∈ keys d.notCompleted
 
 section
-variable {H : D → D} {sfx : Str} {ids : List Str} {s : Dir D} {d : Dict D}
+variable {H : D → D} {sfx : Str} {ids : List Str} {lost : List Str} {s : Dir D} {d : Dict D}
 
-theorem globC_eq (hy : hyg sfx ids = true) (h : Sim H sfx ids s d) : globC s = keys d.completed := by
+theorem globC_eq (hy : hyg sfx ids = true) (h : Sim H sfx ids lost s d) : globC s = keys d.completed := by
   unfold globC
   rw [h.root, h.hsfx]
   apply List.filter_eq_self.mpr
@@ -98,7 +106,7 @@ theorem globC_eq (hy : hyg sfx ids = true) (h : Sim H sfx ids s d) : globC s = k
   obtain ⟨i, hi, rfl⟩ := h.fromC n hn
   exact (hyg_id hy hi).cglob
 
-theorem globNc_eq (hy : hyg sfx ids = true) (h : Sim H sfx ids s d) : globNc s = keys d.notCompleted := by
+theorem globNc_eq (hy : hyg sfx ids = true) (h : Sim H sfx ids lost s d) : globNc s = keys d.notCompleted := by
   unfold globNc
   by_cases hd : s.ncDir = true
   · rw [if_pos hd, h.nc]
@@ -109,17 +117,27 @@ theorem globNc_eq (hy : hyg sfx ids = true) (h : Sim H sfx ids s d) : globNc s =
   · have : s.ncDir = false := by simpa using hd
     rw [if_neg hd, h.ncDir this]; rfl
 
-theorem sim_populate (hy : hyg sfx ids = true) (h : Sim H sfx ids s d) :
-    Sim H sfx ids (populate s) d ∧ Full (populate s) d := by
+/-- the relation only looks at the files, the two directory flags and the member lists -/
+theorem sim_congr {s' : Dir D} (h : Sim H sfx ids lost s d)
+    (e1 : s'.mode = s.mode) (e2 : s'.sfx = s.sfx) (e3 : s'.root = s.root) (e4 : s'.nc = s.nc)
+    (e5 : s'.logs = s.logs) (e6 : s'.logsDir = true) (e7 : s'.md5 = s.md5) (e8 : s'.ncDir = false → s.ncDir = false)
+    (cC : s'.cCache = [] ∨ (s'.cCache.Nodup ∧ ∀ n, n ∈ s'.cCache ↔ n ∈ keys d.completed))
+    (cN : s'.ncCache = [] ∨ (s'.ncCache.Nodup ∧ ∀ n, n ∈ s'.ncCache ↔ n ∈ keys d.notCompleted)) :
+    Sim H sfx ids lost s' d :=
+  ⟨e1 ▸ h.hmode, e2 ▸ h.hsfx, e3 ▸ h.root, e4 ▸ h.nc, e5 ▸ h.logs, e6, h.ndC, h.ndN, h.fromC, h.fromN, cC, cN,
+   e7 ▸ h.md5N, e7 ▸ h.md5C, h.md5X, h.lostSub, fun hd => h.ncDir (e8 hd)⟩
+
+theorem sim_populate (hy : hyg sfx ids = true) (h : Sim H sfx ids lost s d) :
+    Sim H sfx ids lost (populate s) d ∧ Full (populate s) d := by
   have hc := globC_eq hy h
   have hn := globNc_eq hy h
   -- completed cache
-  have h1 : Sim H sfx ids (populateC s) d ∧ (populateC s).cCache.Nodup ∧
+  have h1 : Sim H sfx ids lost (populateC s) d ∧ (populateC s).cCache.Nodup ∧
       (∀ n, n ∈ (populateC s).cCache ↔ n ∈ keys d.completed) := by
     unfold populateC
     by_cases he : s.cCache.isEmpty = true
     · rw [if_pos he]
-      refine ⟨⟨h.hmode, h.hsfx, h.root, h.nc, h.ndC, h.ndN, h.fromC, h.fromN, ?_, h.cacheN, h.md5N, h.md5C, h.ncDir⟩, ?_, ?_⟩
+      refine ⟨sim_congr h rfl rfl rfl rfl rfl h.logsDir rfl id ?_ h.cacheN, ?_, ?_⟩
       · right; simp only [hc]; exact ⟨h.ndC, fun _ => trivial⟩
       · simp only [hc]; exact h.ndC
       · simp only [hc]; exact fun _ => trivial
@@ -133,7 +151,7 @@ theorem sim_populate (hy : hyg sfx ids = true) (h : Sim H sfx ids s d) :
   unfold populate populateNc
   by_cases he : (populateC s).ncCache.isEmpty = true
   · rw [if_pos he]
-    refine ⟨⟨hs1.hmode, hs1.hsfx, hs1.root, hs1.nc, h.ndC, h.ndN, h.fromC, h.fromN, hs1.cacheC, ?_, hs1.md5N, hs1.md5C, hs1.ncDir⟩, ⟨hnd1, hm1, ?_, ?_⟩⟩
+    refine ⟨sim_congr hs1 rfl rfl rfl rfl rfl hs1.logsDir rfl id hs1.cacheC ?_, ⟨hnd1, hm1, ?_, ?_⟩⟩
     · right; simp only [hn1]; exact ⟨h.ndN, fun _ => trivial⟩
     · simp only [hn1]; exact h.ndN
     · simp only [hn1]; exact fun _ => trivial
@@ -164,7 +182,7 @@ theorem contains_iff (hf : Full s d) (item : Str) (hp : startsWith item ncPrefix
 
 /-! ### `_write` -/
 
-theorem writeCore_root (hy : hyg sfx ids = true) (h : Sim H sfx ids s d) {i : Str} (hi : i ∈ ids) (data : D) :
+theorem writeCore_root (hy : hyg sfx ids = true) (h : Sim H sfx ids lost s d) {i : Str} (hi : i ∈ ids) (data : D) :
     writeCore H s .root i s.sfx data =
       if s.mode = .r then (s, .err .ioError)
       else if cN sfx i ∈ keys d.completed then
@@ -199,7 +217,7 @@ theorem writeCore_root (hy : hyg sfx ids = true) (h : Sim H sfx ids s d) {i : St
 
 theorem sJson_ne_sLog : (sJson != sLog) = true := by decide
 
-theorem writeCore_nc (hy : hyg sfx ids = true) (h : Sim H sfx ids s d) {i : Str} (hi : i ∈ ids) (data : D)
+theorem writeCore_nc (hy : hyg sfx ids = true) (h : Sim H sfx ids lost s d) {i : Str} (hi : i ∈ ids) (data : D)
     (hj : ncN i ∉ keys d.completed) :
     writeCore H s .nc i sJson data =
       if s.mode = .r then (s, .err .ioError)
@@ -292,9 +310,9 @@ theorem dropLoop_all :
     ∀ (ms : List Str) (s : Dir D), ms.Nodup → (ms.map dropMd5).Nodup →
       (∀ m ∈ ms, has s.nc m = true ∧ has s.md5 (dropMd5 m) = true) →
       ∃ s', dropLoop [] s ms = (s', .done none) ∧ s'.mode = s.mode ∧ s'.sfx = s.sfx ∧ s'.root = s.root ∧
-        s'.ncDir = s.ncDir ∧ s'.cCache = s.cCache ∧
+        s'.ncDir = s.ncDir ∧ s'.cCache = s.cCache ∧ s'.logs = s.logs ∧ s'.logsDir = s.logsDir ∧
         (∀ x, get s'.nc x = if x ∈ ms then none else get s.nc x) ∧
-        (∀ y, get s'.md5 y = get s.md5 y ∨ get s'.md5 y = none) := by
+        (∀ y, get s'.md5 y = if y ∈ ms.map dropMd5 then none else get s.md5 y) := by
   intro ms
   induction ms with
   | nil => intro s _ _ _; exact ⟨s, by simp [dropLoop]⟩
@@ -312,9 +330,9 @@ theorem dropLoop_all :
       have hne2 : dropMd5 m' ≠ dropMd5 m := fun e => hmd_notin (e ▸ List.mem_map_of_mem hm')
       simp only [has, get_del, hne, hne2, if_false]
       exact ⟨a, b⟩
-    obtain ⟨s', e, q1, q2, q3, q4, q5, q6, q7⟩ :=
+    obtain ⟨s', e, q1, q2, q3, q4, q5, q5a, q5b, q6, q7⟩ :=
       ih { s with nc := del s.nc m, md5 := del s.md5 (dropMd5 m), ncCache := s.ncCache.erase m } hnd' hnd2' hpre
-    refine ⟨s', ?_, q1, q2, q3, q4, q5, ?_, ?_⟩
+    refine ⟨s', ?_, q1, q2, q3, q4, q5, q5a, q5b, ?_, ?_⟩
     · unfold dropLoop
       simp only [List.isEmpty_nil, Bool.not_true, Bool.false_and, Bool.false_eq_true, if_false, h1, h2]
       exact e
@@ -325,13 +343,11 @@ theorem dropLoop_all :
       · simp [hx]
       · simp [hx]
     · intro y
-      rcases q7 y with h | h
-      · simp only [get_del] at h
-        by_cases hy : y = dropMd5 m
-        · right; rw [h]; simp [hy]
-        · left; rw [h]; simp [hy]
-      · exact Or.inr h
-
+      rw [q7 y]
+      simp only [get_del, List.map_cons, List.mem_cons]
+      by_cases hy : y = dropMd5 m
+      · simp [hy]
+      · simp [hy]
 
 theorem has_false_of_not_mem {m : KV D} {k : Str} (h : k ∉ keys m) : has m k = false := by
   unfold has
@@ -363,6 +379,7 @@ theorem populateNc_eq (s : Dir D) : populateNc s = { s with ncCache := (populate
 @[simp] theorem populateNc_sfx (s : Dir D) : (populateNc s).sfx = s.sfx := by unfold populateNc; split <;> rfl
 @[simp] theorem populateNc_root (s : Dir D) : (populateNc s).root = s.root := by unfold populateNc; split <;> rfl
 @[simp] theorem populateNc_ncDir (s : Dir D) : (populateNc s).ncDir = s.ncDir := by unfold populateNc; split <;> rfl
+@[simp] theorem populateNc_logsDir (s : Dir D) : (populateNc s).logsDir = s.logsDir := by unfold populateNc; split <;> rfl
 @[simp] theorem populateNc_logs (s : Dir D) : (populateNc s).logs = s.logs := by unfold populateNc; split <;> rfl
 @[simp] theorem populateNc_md5 (s : Dir D) : (populateNc s).md5 = s.md5 := by unfold populateNc; split <;> rfl
 @[simp] theorem populateNc_cCache (s : Dir D) : (populateNc s).cCache = s.cCache := by unfold populateNc; split <;> rfl
